@@ -177,11 +177,10 @@ Lemma firstn_write_at {A} (l new : list A) off :
   (N.to_nat off <= length l)%nat ->
   firstn (N.to_nat off + length new) (write_at l off new) = firstn (N.to_nat off) l ++ new.
 Proof.
-  intros Lo. unfold write_at. rewrite app_assoc.
-  rewrite firstn_app.
+  intros Lo. unfold write_at.
   assert (E : length (firstn (N.to_nat off) l ++ new) = (N.to_nat off + length new)%nat)
     by (rewrite app_length, firstn_length; lia).
-  rewrite <- E at 1. rewrite firstn_all. rewrite E, Nat.sub_diag. cbn [firstn]. apply app_nil_r.
+  rewrite <- E. apply firstn_all.
 Qed.
 
 Lemma write_at_length {A} (l new : list A) off :
